@@ -1157,3 +1157,84 @@ class RekeySession:
                        "settled": settled, "intact": intact, "alive": alive[nm], "reason": reason[nm],
                        "fails": [e[5] for e in log if e[0] == nm and e[1] == "RecvFail"]}
         return out
+
+
+# --------------------------------------------------------------------------- concurrent senders (C01)
+
+def concurrent_senders(suite, seed, nthreads, per_thread, mode, bound, max_runs, strict=False):
+    """several threads call send_message on ONE Packetizer under the deterministic scheduler (harness/linesched.py):
+    switch points at every operation on the write lock and at every source line of Packetizer.send_message.
+    mode "dfs": every schedule with at most `bound` preemptions (at most max_runs); "random": max_runs seeded schedules.
+    Yields one dict per schedule: the events of a PacketLayer trace (Send in WIRE order, then the receiver's reads),
+    the wire order as (thread, message number) and the scheduler's choice labels."""
+    import paramiko.packet as pk
+    from harness import linesched as ls
+    files = {pk.__file__}
+
+    def scenario(S):
+        rnd = random.Random(seed)
+        L = Link(suite, rnd, strict=strict)
+        # payloads that resemble each other, so that a deflater which keeps its window refers back across packets
+        common = bytes(rnd.getrandbits(8) for _ in range(rnd.randint(200, 500)))
+        msgs = {}
+        for t in range(nthreads):
+            for k in range(per_thread):
+                msgs[(t, k)] = bytes([94]) + b"thread %d message %d:" % (t, k) + common
+        warm = bytes([94]) + b"warm-up:" + common
+        L.tx.send(warm)                        # (uncontrolled: before any thread exists)
+        order = [("w", 0)]
+        current = {}
+        real_send = L.tx.sock.send
+
+        def send(data):                        # the socket sees the packets in wire order
+            who = S.cur().name if S.cur() is not None else None
+            if who in current and (not order or order[-1] != current[who]):
+                order.append(current[who])
+            return real_send(data)
+        L.tx.sock.send = send
+        failures = []
+
+        def body(t):
+            def run():
+                for k in range(per_thread):
+                    current["s%d" % t] = (t, k)
+                    try:
+                        L.tx.send(msgs[(t, k)])
+                    except Exception as e:       # send_message itself failed
+                        failures.append("%s: %s" % (type(e).__name__, e))
+                        return
+            return run
+        for t in range(nthreads):
+            S.spawn(body(t), "s%d" % t)
+
+        def after(ex):
+            led = Ledger()
+            ev = []
+            for who in order:
+                data = warm if who[0] == "w" else msgs[who]
+                ev.append({"a": "Send", "i": led.add(data), "r": "", "got": 0, "seq": -1})
+            base = L.seq_base
+            L.wire.eof = True
+            while True:
+                try:
+                    kind, data, s = L.rx.read()
+                except (EOFError, Starved):
+                    break
+                except Machinery:
+                    raise
+                except Exception as e:
+                    ev.append({"a": "Fail", "i": 0, "r": type(e).__name__, "got": 0, "seq": -1})
+                    break
+                ev.append({"a": "Read", "i": 0, "r": kind, "got": led.identify(data) if kind == "data" else 0, "seq": s - base})
+            ev.append({"a": "End", "i": 0, "r": "", "got": 0, "seq": -1})
+            return {"ev": ev, "order": order, "written": len(order), "expected": 1 + nthreads * per_thread,
+                    "send_failures": failures, "hang": ex.hang, "stuck": ex.stuck, "labels": ex.labels[:60],
+                    "strict": strict, "zlib": suite_info(suite)["zlib"], "mode0": mode_of(suite)}
+        return after
+
+    with ls.patched(pk):
+        kw = dict(trace_files=files, line_filter=lambda f, name: name == "send_message", native_timeout=20.0)
+        it = ls.explore_dfs(scenario, bound=bound, max_runs=max_runs, **kw) if mode == "dfs" else \
+            ls.explore_random(scenario, max_runs, seed, p_switch=0.3, **kw)
+        for ex in it:
+            yield ex.verdict
